@@ -17,7 +17,8 @@ except Exception as e:
     print('translate decide_start: %s' % e); rc = 1
 try:
     import cwrap2lean
-    cwrap2lean.gen_blas_driver(cwrap2lean.gen_blas_safety())
+    _t = cwrap2lean.gen_blas_safety(); cwrap2lean.gen_blas_driver(_t); cwrap2lean.gen_blas_foot(_t)
+    _tl = cwrap2lean.gen_lapack_safety(); cwrap2lean.gen_lapack_driver(_tl); cwrap2lean.gen_lapack_foot(_tl)
 except Exception as e:
     print('translate cwrap2lean: %s' % e); rc = 1
 sys.exit(rc)
